@@ -200,8 +200,8 @@ def run_N1_group(ctx, case):
 
 def pairs_N1(ctx, kind):
     # every register index in both roles: (d,d) exercises the immediate forms, (d,d+1) the register forms; thorough: all 64 pairs
+    if kind == 'CBRANCH': return [(0, 0), (5, 0)] if ctx['tier'] == 'quick' else [(d, 0) for d in range(8)]      # the source register field is not used by CBRANCH
     if ctx['tier'] != 'quick': return [(d, s_) for d in range(8) for s_ in range(8)]
-    if kind == 'CBRANCH': return [(0, 0), (5, 0)]
     return [(d, d) for d in range(8)] + [(d, (d + 1) % 8) for d in range(8)]
 
 def jobs_N1(ctx):
@@ -213,7 +213,11 @@ def jobs_N1(ctx):
         uses_lit = k in ('IADD_RS', 'IADD_M', 'ISUB_R', 'ISUB_M', 'IMUL_R', 'IMUL_M', 'IMULH_M', 'ISMULH_M', 'IMUL_RCP', 'IXOR_R', 'IXOR_M', 'FADD_M', 'FSUB_M', 'FDIV_M', 'CBRANCH', 'ISTORE')
         for op in ops:
             prs = pairs_N1(ctx, k)
-            for c in range(0, len(prs), 4): J.append(dict(opcode=op, pairs=prs[c:c + 4], lits=(lits if uses_lit else lits[:1]) if k != 'CBRANCH' or ctx['tier'] != 'quick' else lits[:1]))
+            if k == 'CBRANCH':      # each (register, literal state) run explores ~240 paths: one job each
+                for pr in prs:
+                    for lt in (lits[:1] if ctx['tier'] == 'quick' else lits[1:3]): J.append(dict(opcode=op, pairs=[pr], lits=[lt]))
+                continue
+            for c in range(0, len(prs), 4): J.append(dict(opcode=op, pairs=prs[c:c + 4], lits=(lits if uses_lit else lits[:1])))
     return J
 
 # ------------------------------------------------------------------------------------------------ N0 / N2
@@ -268,7 +272,7 @@ def run_N0(ctx, case):
 LEMMAS = {
     'N1': dict(jobs=jobs_N1, run=run_N1_group, units=['a64'], a64=True, functions=['JitCompilerA64::h_* (30 emitters)', 'emitMovImmediate', 'emitAddImmediate', 'emitMemLoad', 'emitMemLoadFP', 'emit32', 'engine[256]'],
                doc='per-instruction translation validation of the ARM64 back-end: the A64 words emitted for an instruction word, executed under the A64 model from an arbitrary machine state in the runtime\'s register allocation, give the spec step: r0-r7, f, e, whole scratchpad, rounding mode (FPCR.RMode), branch target = reg_changed_offset of the branch register, last-writer bookkeeping; a0-a3, mask/literal registers and every other register preserved (x19, x20, v28, flags are scratch); accesses in bounds',
-               bound='first opcode of each of the 29 ranges (quick) / first and last (thorough); register pairs (d,d) and (d,d+1) for every d (quick; CBRANCH: d in {0,5}) / all 64 (thorough); mod and imm32 symbolic; literal-pool fill states (32-bit literals used, reciprocal literals used) in {(5,3),(64,14)} (quick) / 5 states; any register file, scratchpad, FPCR, both versions',
+               bound='first opcode of each of the 29 ranges (quick) / first and last (thorough); register pairs (d,d) and (d,d+1) for every d (quick; CBRANCH: d in {0,5}) / all 64 (thorough; CBRANCH: every d, two literal states); mod and imm32 symbolic; literal-pool fill states (32-bit literals used, reciprocal literals used) in {(5,3),(64,14)} (quick) / 5 states; any register file, scratchpad, FPCR, both versions',
                symbolic='mod, imm32, r0-r7, f/e/a, scratchpad, E masks, FPCR, every other register, literal pool content, program index, last-writer table and reg_changed_offset',
                stubs=['FP ops := uninterpreted functions of (rounding mode, operands), shared with the spec', 'randomx_reciprocal_fast := uninterpreted rcp (R1/R2)', 'A64 semantics: engine/a64sem.py (Arm ARM transcription; decoding cross-checked against llvm-objdump, semantics NOT validated on hardware)',
                       'frame facts assumed: x2 = scratchpad, v29/v30/v31 = and-mask/E or-mask/scale mask, x8 = rbit(FPCR), literal registers loaded from the literal pool (N0 checks the loads)'],
